@@ -192,6 +192,44 @@ def async_check_worker(analysis: Analysis, ctxspec) -> list:
     return rows
 
 
+def answer_worker(analysis: Analysis, _spec) -> dict:
+    ctx = analysis.context(analysis.versions[-1], "tcp", "sync")
+    it = analysis.new_interp(ctx)
+    st, gw = analysis.gateway_state(it)
+    msg = Sym(("root", "msg"), ("cls", "message:Message"))
+    outs = analysis.run_root(it, "gateway_tcp:BaseTCPGateway._handle_i_version", [msg], gw, st)
+    vals = [o for o in outs if o[0] == "val"]
+    def stores(s, name):
+        return [e for e in s.events if e.kind == "store" and e.name == name]
+    return {"paths": len(vals), "all_restart": all(any("time.time" in repr(e.args[0].key()) for e in stores(s, "tcp_disconnect_timer")) for _k, s, _v in vals), "touches_check": any(stores(s, "tcp_check_timer") for _k, s, _v in vals)}
+
+
+def reader_exit_worker(analysis: Analysis, _spec) -> dict:
+    """How the TCP reader loop ends: connection_lost(None) means "closed on request" to the protocol (no
+    reconnect), so it may only be reported when the loop saw its run flag cleared."""
+    ctx = analysis.context(analysis.versions[-1], "tcp", "sync")
+    it = analysis.new_interp(ctx)
+    st, gw = analysis.gateway_state(it)
+    tr = Sym(("root", "TT"), ("cls", "gateway_tcp:TCPTransport"))
+    bad = []
+    n = 0
+    for out in analysis.run_root(it, "gateway_tcp:TCPTransport.run", [], tr, st):
+        kind, s, v = out
+        if kind != "val" or any(e.kind == "loopcut" for e in s.events):
+            continue
+        lost = [e for e in s.events if e.kind == "call" and e.name.endswith("connection_lost")]
+        if not lost:
+            bad.append(("the reader loop ends without telling the protocol", describe_path(out, 16)))
+            continue
+        n += 1
+        arg = lost[-1].args[0] if lost[-1].args else None
+        if isinstance(arg, Const) and arg.value is None:
+            stopped = any(f[0] == "falsy" and "alive" in repr(f[1]) for f in s.facts)
+            if not stopped:
+                bad.append(("the loop is left by a break without an error while the run flag is still set: connection_lost(None) looks like a requested close, so nobody reconnects", describe_path(out, 16)))
+    return {"n": n, "bad": bad[:3]}
+
+
 def watchdog_structure(analysis: Analysis, res: RuleResult) -> None:
     """R5: structure of the TCP watchdog (which timer, which factor, which side of the comparison).
 
@@ -211,7 +249,9 @@ def watchdog_structure(analysis: Analysis, res: RuleResult) -> None:
     res.add("C20-R5", "gateway_tcp:BaseTCPGateway.check_connection / a version probe is sent every reconnect_timeout", okp and all(("check", 1, "pending") in r["atoms"] or ("disconnect", 2, "expired") in r["atoms"] for r in skips), w, (f"{len(probes)} probing path(s) under `tcp_check_timer + transport.reconnect_timeout < now`, {len(skips)} skipping path(s) under its negation" if okp else "a probing path is not taken under `tcp_check_timer + transport.reconnect_timeout < now` or does not restart the probe timer") if probes else "no path sends the probe", next((r["witness"] for r in probes + skips if not (("check", 1, "expired") in r["atoms"] or ("check", 1, "pending") in r["atoms"])), None))
     res.add("C20-R5", "gateway_tcp:BaseTCPGateway.check_connection / the probe is I_VERSION to the gateway and restarts the probe timer", bool(probes) and all(r["is_version"] and r["to_gw"] and r["restarts_check"] for r in probes), w, "internal / I_VERSION to node 0 child 255, enqueued as a job; tcp_check_timer = now")
     h = analysis.p.func("gateway_tcp:BaseTCPGateway._handle_i_version")
-    res.add("C20-R5", "gateway_tcp:BaseTCPGateway._handle_i_version / an answer restarts the disconnect timer", "self.tcp_disconnect_timer = time.time()" in unparse(h.node), common.where(analysis, h, h.node), "")
+    hrow = common.pmap(analysis, answer_worker, ["x"])[0]
+    res.add("C20-R5", "gateway_tcp:BaseTCPGateway._handle_i_version / an answer restarts the disconnect timer", hrow["paths"] > 0 and hrow["all_restart"], common.where(analysis, h, h.node), "tcp_disconnect_timer = now on every path")
+    res.add("C20-R5", "gateway_tcp:BaseTCPGateway._handle_i_version / an answer does not touch the probe timer (probes keep their own period)", not hrow["touches_check"], common.where(analysis, h, h.node), "only the disconnect timer is written" if not hrow["touches_check"] else "the answer also restarts tcp_check_timer: with the asyncio re-arm period of reconnect_timeout + 0.1 s an answer latency of 0.1-0.2 s makes every other probe be skipped, and a link that answers every probe is dropped after about 3 x reconnect_timeout")
     init = analysis.p.func("gateway_tcp:BaseTCPGateway.__init__")
     res.add("C20-R5", "gateway_tcp:BaseTCPGateway.__init__ / answers to the version probe are routed to the watchdog", "I_VERSION.set_handler" in unparse(init.node) and "_handle_i_version" in unparse(init.node), common.where(analysis, init, init.node), "")
     run = analysis.p.func("gateway_tcp:TCPTransport.run")
@@ -363,7 +403,12 @@ def run(analysis: Analysis, tier: str) -> RuleResult:
     first = [s for s in info.node.body if isinstance(s, ast.If)]
     ok = bool(first) and "protocol" in unparse(first[0].test) and all(isinstance(x, ast.Return) for x in first[0].body)
     res.add("C20-R3", "transport:Transport.send / tests the connection first (no write after stop)", ok, common.where(analysis, info, info.node), unparse(first[0].test)[:80] if first else "")
+    from .c14 import pump_stops
+
+    pump_stops(analysis, res, "C20-R3")
     watchdog_structure(analysis, res)
+    rx = common.pmap(analysis, reader_exit_worker, ["x"])[0]
+    res.add("C20-R2", "gateway_tcp:TCPTransport.run / a link that ends without stop() is reported with an error (so that it is re-dialled)", rx["n"] > 0 and not rx["bad"], "mysensors/gateway_tcp.py", f"{rx['n']} loop exits: connection_lost(None) only after the run flag was cleared" if not rx["bad"] else rx["bad"][0][0], rx["bad"][0][1] if rx["bad"] else None)
     res.units = {"protocol_classes": classes, "connect_loops": [c[0] for c in CONNECTS], "source_digest": analysis.p.digest()}
     res.not_decided = ["the two-sided timing guarantee of the TCP watchdog", "exactly-once callbacks under arbitrary event sequences", "behaviour when a user callback itself raises on the reader thread"]
     res.assumptions = ["failure classes of the connect primitives as in sa/extmodel.py (SerialException, socket.timeout, OSError, asyncio.TimeoutError)"]
